@@ -66,7 +66,7 @@ theorem sqrtTotal_some (sqrtFn : Rat → Rat) : SqrtTotal (fun x => some (sqrtFn
 
 theorem fnOf_some (sqrtFn : Rat → Rat) : fnOf (fun x => some (sqrtFn x)) = sqrtFn := rfl
 
-/-! ## Vocabulary and kernels -/
+/-! ## Vocabulary (the translator's fixed prelude, which is not part of any group's simp set) -/
 
 theorem abs_agrees (x : Rat) : Generated.Machines.Decimal.abs x = x.abs := by
   unfold Generated.Machines.Decimal.abs
@@ -76,73 +76,87 @@ theorem abs_nonneg (x : Rat) : 0 ≤ Generated.Machines.Decimal.abs x := by
   unfold Generated.Machines.Decimal.abs
   grind
 
+/-- a `sqrt` honouring its contract, applied to an absolute value (the only way the code calls it), is `Some` of the
+model's `sqrtFn`: the `.expect("variance cannot be negative")` is dead code whatever the argument is. -/
+theorem sqrt_abs (sqrt : Rat → Option Rat) (hs : SqrtTotal sqrt) (x : Rat) :
+    sqrt x.abs = some (fnOf sqrt x.abs) := by
+  obtain ⟨y, hy⟩ := hs x.abs (by rw [← abs_agrees]; exact abs_nonneg x)
+  simp [fnOf, hy]
+
+/-! ## Shape-independent proofs
+
+Every proof below takes the state records apart (`rcases`: case analysis on the DATA), unfolds *everything generated
+for the group* (`gen_dataset`: the listed functions, the instance of the generic `calculate_mean`, the derived
+`Default`s and whatever auxiliary functions the translator found by lookup, under whatever names) together with the
+model's definitions and the record maps, rewrites `sqrt |x|` with `sqrt_abs`, and lets `grind` decide what is left
+(comparisons of rationals, field arithmetic). Nothing depends on the names of helper functions or on how the source
+spells a decision (`if`/`else`, `match` on a bool, early `return`, `*self = Self::init(..)`, flipped comparisons,
+reordered independent assignments, hoisted or renamed locals). -/
+
+open Lean.Parser.Tactic in
+/-- everything generated for the group, the model's definitions and the record maps -/
+local macro "unfold_ds" loc:(location)? : tactic => `(tactic|
+  simp only [gen_dataset, calculateMean, calculateRecurrenceRelationM, calculatePopulationVariance, Range.default,
+    Range.update, Range.range, Dispersion.default, Dispersion.update, Summary.default, Summary.update, toRange, ofRange,
+    toDisp, ofDisp, toSum, ofSum, abs_agrees] $[$loc]?)
+
+/-- unfold both sides, then case analysis on the data -/
+local macro "ds_agree" : tactic => `(tactic| first | rfl | (unfold_ds; done) | (unfold_ds; grind))
+
 theorem calculate_mean_agrees (prevMean nextValue count : Rat) :
     Generated.Machines.welford_online.calculate_mean_Decimal prevMean nextValue count
-      = calculateMean prevMean nextValue count := by
-  simp only [Generated.Machines.welford_online.calculate_mean_Decimal, calculateMean] <;> grind
+      = calculateMean prevMean nextValue count := by ds_agree
 
 theorem calculate_recurrence_relation_m_agrees (prevM prevMean newValue newMean : Rat) :
     Generated.Machines.welford_online.calculate_recurrence_relation_m prevM prevMean newValue newMean
-      = calculateRecurrenceRelationM prevM prevMean newValue newMean := by
-  simp only [Generated.Machines.welford_online.calculate_recurrence_relation_m,
-    calculateRecurrenceRelationM] <;> grind
+      = calculateRecurrenceRelationM prevM prevMean newValue newMean := by ds_agree
 
 theorem calculate_population_variance_agrees (m count : Rat) :
     Generated.Machines.welford_online.calculate_population_variance m count
-      = calculatePopulationVariance m count := by
-  simp only [Generated.Machines.welford_online.calculate_population_variance,
-    calculatePopulationVariance] <;> grind
+      = calculatePopulationVariance m count := by ds_agree
 
 /-! ## `Range` -/
 
 /-- derived `Default` of `Range` = `Range.default`. -/
-theorem range_default_agrees : ofRange Generated.Machines.Range.default = Range.default := rfl
+theorem range_default_agrees : ofRange Generated.Machines.Range.default = Range.default := by ds_agree
 
 /-- `Range::update`, for all ranges and values. -/
 theorem range_update_agrees (r : Range) (x : Rat) :
     ofRange (Generated.Machines.Range.update (toRange r) x) = r.update x := by
-  rcases r with ⟨a, h, l⟩
-  simp only [Generated.Machines.Range.update, Range.update, toRange, ofRange]
-  cases a <;> simp <;> grind
+  rcases r with ⟨_ | _, h, l⟩ <;> ds_agree
 
 /-- `Range::init(first)` (no model definition of its own) is the first update of the default range. -/
 theorem range_init_agrees (x : Rat) :
-    ofRange (Generated.Machines.Range.init x) = Range.default.update x := by
-  simp [Generated.Machines.Range.init, Range.update, Range.default, ofRange]
+    ofRange (Generated.Machines.Range.init x) = Range.default.update x := by ds_agree
 
 /-- `Range::range`. -/
 theorem range_range_agrees (r : Range) :
-    Generated.Machines.Range.range (toRange r) = r.range := rfl
+    Generated.Machines.Range.range (toRange r) = r.range := by ds_agree
 
 /-! ## `Dispersion` -/
 
 theorem dispersion_default_agrees :
-    ofDisp Generated.Machines.Dispersion.default = Dispersion.default := rfl
+    ofDisp Generated.Machines.Dispersion.default = Dispersion.default := by ds_agree
 
 /-- `Dispersion::update`, for all states and arguments and every `sqrt` honouring its contract; the
-proof shows that `.expect("variance cannot be negative")` cannot fire. -/
+proof shows that `.expect("variance cannot be negative")` cannot fire (`sqrt_abs`). -/
 theorem dispersion_update_agrees (sqrt : Rat → Option Rat) (hs : SqrtTotal sqrt) (d : Dispersion)
     (prevMean newMean newValue valueCount : Rat) :
     ofDisp (Generated.Machines.Dispersion.update sqrt (toDisp d) prevMean newMean newValue valueCount)
       = d.update (fnOf sqrt) prevMean newMean newValue valueCount := by
-  obtain ⟨y, hy⟩ := hs _ (abs_nonneg (calculatePopulationVariance
-    (calculateRecurrenceRelationM d.recurrenceRelationM prevMean newValue newMean) valueCount))
-  simp only [Generated.Machines.Dispersion.update, Dispersion.update, toDisp, ofDisp, fnOf,
-    calculate_recurrence_relation_m_agrees, calculate_population_variance_agrees, hy,
-    ← abs_agrees, range_update_agrees, Option.getD_some]
+  have key := sqrt_abs sqrt hs
+  rcases d with ⟨⟨_ | _, h, l⟩, m, v, sd⟩ <;> unfold_ds <;> simp only [key] <;> grind
 
 /-! ## `DataSetSummary` -/
 
 theorem summary_default_agrees :
-    ofSum Generated.Machines.DataSetSummary.default = Summary.default := rfl
+    ofSum Generated.Machines.DataSetSummary.default = Summary.default := by ds_agree
 
 /-- `DataSetSummary::update`, for all summaries and values and every `sqrt` honouring its contract. -/
 theorem summary_update_agrees (sqrt : Rat → Option Rat) (hs : SqrtTotal sqrt) (s : Summary) (x : Rat) :
     ofSum (Generated.Machines.DataSetSummary.update sqrt (toSum s) x) = s.update (fnOf sqrt) x := by
-  have h := dispersion_update_agrees sqrt hs s.dispersion s.mean
-    (calculateMean s.mean x (s.count + 1)) x (s.count + 1)
-  simp only [Generated.Machines.DataSetSummary.update, Summary.update, toSum, ofSum,
-    calculate_mean_agrees, h]
+  have key := sqrt_abs sqrt hs
+  rcases s with ⟨c, sm, mn, ⟨⟨_ | _, h, l⟩, m, v, sd⟩⟩ <;> unfold_ds <;> simp only [key] <;> grind
 
 /-- The same for a model square root `sqrtFn` (every one arises as `fnOf (some ∘ sqrtFn)`). -/
 theorem summary_update_agrees_of_fn (sqrtFn : Rat → Rat) (s : Summary) (x : Rat) :
